@@ -52,6 +52,8 @@ pub struct RngShared {
     pub state: Mutex<Rng>,
     pub seed: u64,
     pub mode: RngMode,
+    /// fault: the next fill yields an unusable value (all zero bytes - not a valid P-256 scalar)
+    pub zero_next: std::sync::atomic::AtomicBool,
 }
 
 impl RngShared {
@@ -61,6 +63,7 @@ impl RngShared {
             state: Mutex::new(Rng::new(mix(seed, 0x5EED_0001))),
             seed,
             mode,
+            zero_next: std::sync::atomic::AtomicBool::new(false),
         })
     }
     /// Called by the harness before each API call.
@@ -88,7 +91,11 @@ impl rand_core::RngCore for SimRng {
         rand_core::impls::next_u64_via_fill(self)
     }
     fn fill_bytes(&mut self, dest: &mut [u8]) {
-        self.0.state.lock().unwrap().fill(dest);
+        if self.0.zero_next.swap(false, std::sync::atomic::Ordering::Relaxed) {
+            dest.fill(0);
+        } else {
+            self.0.state.lock().unwrap().fill(dest);
+        }
         let mut l = self.0.log.lock().unwrap();
         let id = l.call_id;
         l.total_bytes += dest.len() as u64;
@@ -209,6 +216,8 @@ pub struct SimResolver {
 pub struct EvilDh {
     inner: Box<dyn Dh>,
     fake: Vec<u8>,
+    /// true once a key was installed through set() (the static key); generated keys stay honest
+    use_fake: bool,
 }
 
 pub fn corrupt_pub(p: &[u8]) -> Vec<u8> {
@@ -232,13 +241,18 @@ impl Dh for EvilDh {
     fn set(&mut self, privkey: &[u8]) {
         self.inner.set(privkey);
         self.fake = corrupt_pub(self.inner.pubkey());
+        self.use_fake = true;
     }
     fn generate(&mut self, rng: &mut dyn Random) {
         self.inner.generate(rng);
-        self.fake = corrupt_pub(self.inner.pubkey());
+        self.use_fake = false;
     }
     fn pubkey(&self) -> &[u8] {
-        &self.fake
+        if self.use_fake {
+            &self.fake
+        } else {
+            self.inner.pubkey()
+        }
     }
     fn privkey(&self) -> &[u8] {
         self.inner.privkey()
@@ -289,10 +303,12 @@ impl CryptoResolver for SimResolver {
         if self.deny == Some(Prim::Dh) {
             return None;
         }
-        let n = self.dh_calls.fetch_add(1, std::sync::atomic::Ordering::Relaxed);
+        let _ = self.dh_calls.fetch_add(1, std::sync::atomic::Ordering::Relaxed);
         let d = self.inner.resolve_dh(choice)?;
-        if self.evil_static_pub && n == 0 {
-            return Some(Box::new(EvilDh { inner: d, fake: vec![] }));
+        if self.evil_static_pub {
+            // whichever object later receives the static key through set() announces a corrupted
+            // public key; objects that only ever generate() (ephemerals) behave honestly
+            return Some(Box::new(EvilDh { inner: d, fake: vec![], use_fake: false }));
         }
         Some(d)
     }
